@@ -14,3 +14,5 @@ int failcmd () { VL ("say set-cg"); enable_commands (); notify_fail ((: nf :)); 
 // a command with a verb: user_parser() sets last_verb (query_verb()) around the call; the program under test supplies the body
 int dogo (string a) { VL ("say dogo"); "/c05/gen/t"->gobody (); return 1; }
 int gocmd () { return command ("go"); }
+// message() to an interactive: do_message() applies receive_message(); the program under test supplies the body
+void receive_message (string c, string m) { "/c05/gen/t"->msgbody (); }
